@@ -2,7 +2,10 @@ module verif/harness
 
 go 1.25
 
-require github.com/thomasjungblut/go-sstables v0.0.0
+require (
+	github.com/thomasjungblut/go-sstables v0.0.0
+	google.golang.org/protobuf v1.36.11
+)
 
 require (
 	capnproto.org/go/capnp/v3 v3.1.0-alpha.2 // indirect
@@ -12,7 +15,6 @@ require (
 	github.com/steakknife/bloomfilter v0.0.0-20180922174646-6819c0d2a570 // indirect
 	github.com/steakknife/hamming v0.0.0-20180906055917-c99c65617cd3 // indirect
 	golang.org/x/exp v0.0.0-20240613232115-7f521ea00fb8 // indirect
-	google.golang.org/protobuf v1.36.11 // indirect
 )
 
 replace github.com/thomasjungblut/go-sstables => /repo
